@@ -4,12 +4,14 @@ from .ringgen import random_sched
 
 HEADER = "From RM Require Import Util RingModel FullSync PoolRun Arc."
 
-def mk_case(N, hs, progs, sched, meta=None, shared=0):
-    line = "arc N=%d hs=%s%s ; " % (N, ",".join(map(str, hs)), " shared=1" if shared else "") + " ; ".join(" ".join(p) for p in progs) + " ; S " + " ".join(map(str, sched))
+def mk_case(N, hs, progs, sched, meta=None, shared=0, ctor=0):
+    # ctor=1: the handles come from the bulk constructor new_with_clones::<COUNT> instead of into_ogre_arc + increment_references + raw_copy
+    # (the same initial state for the model: one counter holding the number of handles)
+    line = "arc N=%d hs=%s%s%s ; " % (N, ",".join(map(str, hs)), " shared=1" if shared else "", " ctor=1" if ctor else "") + " ; ".join(" ".join(p) for p in progs) + " ; S " + " ".join(map(str, sched))
     cop = {"clone": "RClone", "drop": "RDrop", "count": "RCount", "read": "RRead", "sclone": "RSClone", "scount": "RSCount"}
     # shared=1: one more handle, owned by no acting thread and alive throughout, is borrowed by the threads (`sclone` / `scount`): the model's `perm`
     coq = "%s %d [%s] [%s] [%s]%%nat" % ("run_arc_shared" if shared else "run_arc", N, "; ".join(map(str, hs)), "; ".join("[" + "; ".join(cop[o] for o in p) + "]" for p in progs), "; ".join(map(str, sched)))
-    m = dict(N=N, hs=hs, progs=progs, sched=sched, shared=shared); m.update(meta or {})
+    m = dict(N=N, hs=hs, progs=progs, sched=sched, shared=shared, ctor=ctor); m.update(meta or {})
     return Case(line, coq, m)
 
 def parse_case_line(line):
@@ -19,7 +21,7 @@ def parse_case_line(line):
     for sec in secs[1:]:
         if sec.startswith("S ") or sec == "S": sched = [int(x) for x in sec[1:].split()]
         else: progs.append(sec.split())
-    return mk_case(int(params["N"]), [int(x) for x in params["hs"].split(",")], progs, sched, shared=int(params.get("shared", 0)))
+    return mk_case(int(params["N"]), [int(x) for x in params["hs"].split(",")], progs, sched, shared=int(params.get("shared", 0)), ctor=int(params.get("ctor", 0)))
 
 def gen_shared_case(rng):
     """one handle that no thread owns is borrowed by 2-3 threads, each cloning it (`sclone`) at will - also when it is the sole handle -
@@ -36,7 +38,7 @@ def gen_shared_case(rng):
     sched = random_sched(rng, nthreads, rng.randint(0, total * 3), burst=rng.choice([0.2, 0.5]))
     for _ in range(4 * max(len(p) for p in progs) + 8): sched += list(range(nthreads))
     hs2 = hs if sum(hs) > 0 else hs
-    return mk_case(N, hs2 if sum(hs2) > 0 else [0] * nthreads, progs, sched, shared=1)
+    return mk_case(N, hs2 if sum(hs2) > 0 else [0] * nthreads, progs, sched, shared=1, ctor=int(rng.random() < 0.4))
 
 def gen_case(rng, max_ops=6):
     N = rng.choice([2, 4]); nthreads = rng.randint(2, 3)
@@ -52,7 +54,7 @@ def gen_case(rng, max_ops=6):
     total = sum(len(p) for p in progs)
     sched = random_sched(rng, nthreads, rng.randint(0, total * 3), burst=rng.choice([0.2, 0.5, 0.8]))
     for _ in range(4 * max(len(p) for p in progs) + 8): sched += list(range(nthreads))
-    return mk_case(N, hs, progs, sched)
+    return mk_case(N, hs, progs, sched, ctor=int(rng.random() < 0.4))
 
 def oracle(case, recs):
     """independent of the model: a count read equals live handles +/- operations in flight; every read returns the value written at
